@@ -472,13 +472,16 @@ def job_scriptcode(args):
                      b'\x00\x75', b'\x4c' + bytes([len(sig)]) + sig + b'\x75' if sig else b'\x4c\x00\x75', b'\x05' + psig[:3]]
             for tail in tails:
                 for cs in range(16):
-                    parts = [CS if cs & 1 else b'', psig, CS if cs & 2 else b'', pk, CS if cs & 4 else b'', b'\xac', CS if cs & 8 else b'', tail]
-                    for fl in (0, F['CONST_SCRIPTCODE'], F['NULLFAIL'], STANDARD):
-                        s.eval_one(sv, fl, CTX0, [b''.join(parts)], [])
-                    # CHECKMULTISIG 1-of-1 with the signature pushed by the script
-                    parts = [b'\x00', CS if cs & 1 else b'', psig, b'\x51', CS if cs & 2 else b'', pk, b'\x51', CS if cs & 4 else b'', b'\xae', CS if cs & 8 else b'', tail]
-                    for fl in (0, F['CONST_SCRIPTCODE'], STANDARD):
-                        s.eval_one(sv, fl, CTX0, [b''.join(parts)], [])
+                    # prefixes: CODESEPARATOR in a dead branch (must not move the scriptCode start), in a live IF and in a live ELSE
+                    for pre in (b'', b'\x00\x63' + CS + b'\x68', b'\x51\x63' + CS + b'\x68', b'\x00\x63\x67' + CS + b'\x68', b'\x51\x63\x67' + CS + b'\x68'):
+                        if pre and tail not in (tails[0], tails[1]): continue
+                        parts = [pre, CS if cs & 1 else b'', psig, CS if cs & 2 else b'', pk, CS if cs & 4 else b'', b'\xac', CS if cs & 8 else b'', tail]
+                        for fl in (0, F['CONST_SCRIPTCODE'], F['NULLFAIL'], STANDARD):
+                            s.eval_one(sv, fl, CTX0, [b''.join(parts)], [])
+                        # CHECKMULTISIG 1-of-1 with the signature pushed by the script
+                        parts = [pre, b'\x00', CS if cs & 1 else b'', psig, b'\x51', CS if cs & 2 else b'', pk, b'\x51', CS if cs & 4 else b'', b'\xae', CS if cs & 8 else b'', tail]
+                        for fl in (0, F['CONST_SCRIPTCODE'], STANDARD):
+                            s.eval_one(sv, fl, CTX0, [b''.join(parts)], [])
     return s
 
 
@@ -642,7 +645,15 @@ DISPATCH_FLAGS = ['P2SH', 'WITNESS', 'TAPROOT', 'CLEANSTACK', 'SIGPUSHONLY', 'DI
                   'WITNESS_PUBKEYTYPE']
 
 
+_WC = []
+
+
 def witness_cases():
+    if not _WC: _WC.extend(_witness_cases())
+    return _WC
+
+
+def _witness_cases():
     """Directed (scriptSig, scriptPubKey, witness) triples around witness-program / P2SH / taproot dispatch."""
     C = []
     add = lambda ssig, spk, wit: C.append((ssig, spk, wit))
